@@ -264,7 +264,9 @@ impl LineIndex {
             return None;
         }
 
-        let offset = self.line_start(line)? + column - 1;
+        // `column` is caller-supplied (e.g. jq's `at_position`), so a huge
+        // value must not wrap around into an in-bounds offset.
+        let offset = self.line_start(line)?.checked_add(column - 1)?;
         if offset < self.text_len {
             Some(offset)
         } else {
